@@ -1102,6 +1102,14 @@ ares_status_t ares_dns_write_buf(const ares_dns_record_t *dnsrec,
 
   orig_len = ares_buf_len(buf);
 
+  /* Name compression pointers are offsets from the start of the DNS message,
+   * and the name writer derives them from the current buffer length.  The
+   * buffer may already hold data (the 2 byte TCP length prefix, queued
+   * messages), so hide that data while the message is written to make
+   * buffer lengths relative to the start of this message. */
+  ares_buf_tag(buf);
+  ares_buf_consume(buf, orig_len);
+
   status = ares_dns_write_header(dnsrec, buf);
   if (status != ARES_SUCCESS) {
     goto done;
@@ -1129,6 +1137,8 @@ ares_status_t ares_dns_write_buf(const ares_dns_record_t *dnsrec,
 
 done:
   ares_llist_destroy(namelist);
+  /* Make the data that was already in the buffer visible again */
+  ares_buf_tag_rollback(buf);
   if (status != ARES_SUCCESS) {
     ares_buf_set_length(buf, orig_len);
   }
